@@ -58,7 +58,11 @@ def execute(hist, path):
                 (ex.add_node_set if kind == 0 else ex.add_element_set)(g, list(members), mesh_frame(k), name)
             else:
                 _, st, g, v, k = call
-                ex.add_variable(st, g, v, mesh_frame(k))
+                if v == 'TEMP':
+                    from pylife.vmap.vmap_structures import VariableLocations
+                    ex.add_variable(st, g, v, mesh_frame(k), column_names=['dx'], location=VariableLocations.NODE)
+                else:
+                    ex.add_variable(st, g, v, mesh_frame(k))
             outcomes.append('ok')
         except Exception as e:
             outcomes.append(type(e).__name__)
@@ -95,8 +99,8 @@ def project(path, geoms_expected):
             except KeyError:
                 continue
             for v in names:
-                cols = SCOLS if v == 'STRESS_CAUCHY' else DCOLS
-                fr = imp.make_mesh(g, st).join_variable(v).to_frame()
+                cols = SCOLS if v == 'STRESS_CAUCHY' else (['dx'] if v == 'TEMP' else DCOLS)
+                fr = imp.make_mesh(g, st).join_variable(v, column_names=cols if v == 'TEMP' else None).to_frame()
                 out['vars'][(st, g, v)] = {tuple(int(x) for x in key): [float(fr.loc[key, c]) if not isinstance(fr.loc[key, c], pd.Series) else float(fr.loc[key, c].iloc[0]) for c in cols] for key in fr.index}
     return out
 
@@ -121,7 +125,7 @@ def expected(st):
             m = {tuple(key): [sval(k, r - 1, c) for c in range(6)] for key, r in x['data']}
         else:
             per_node = {n: r for n, r in x['data']}
-            m = {key: [dval(k, per_node[key[1]] - 1, c) for c in range(3)] for key in gidx if key[1] in per_node}
+            m = {key: [dval(k, per_node[key[1]] - 1, c) for c in range(1 if x['v'] == 'TEMP' else 3)] for key in gidx if key[1] in per_node}
         exp['vars'][(x['st'], x['g'], x['v'])] = m
     return exp
 
@@ -217,7 +221,7 @@ def run(chk):
     if res.dump_path and os.path.exists(res.dump_path):
         parts = par.split_dump(res.dump_path, 64)
         tot = 0
-        for n, nontriv, viol, samples in par.pmap(_replay, [(p, i, 35 if quick else 100, chk.seed) for i, p in enumerate(parts)], chunksize=1):
+        for n, nontriv, viol, samples in par.pmap(_replay, [(p, i, 25 if quick else 100, chk.seed) for i, p in enumerate(parts)], chunksize=1):
             tot += n
             for x in nontriv:
                 chk.nontrivial(x)
